@@ -52,7 +52,8 @@ def _digest(x):
     try:
         import numpy as np
         if isinstance(x, np.ndarray):
-            return f"nd:{x.dtype}:{x.shape}:{x.tobytes().hex()[:64]}"
+            import hashlib
+            return f"nd:{x.dtype}:{x.shape}:{hashlib.sha1(x.tobytes()).hexdigest()}"
     except ImportError:
         pass
     if isinstance(x, (set, frozenset)):
@@ -77,6 +78,10 @@ def _mutate(x, how):
         x.a = 99
     elif how == "content":
         x.flat[0] = 99
+    elif how == "content_last":
+        x.flat[x.size - 1] = 99
+    elif how == "content_mid":
+        x.flat[x.size // 2] = 99
     elif how == "shape":
         x.shape = tuple(reversed(x.shape)) if len(set(x.shape)) > 1 else (x.size,)
     elif how == "dtype":
@@ -122,7 +127,7 @@ ShFileCopy = shell.define(TOOL, inputs={"mutate": shell.arg(type=int, argstr="",
 
 HOWS = {"list": ["append", "setitem", "nested", "none"], "dict": ["setkey", "nested", "none"],
         "set": ["add", "none"], "object": ["attr", "nested", "none"],
-        "numpy": ["content", "shape", "dtype", "none"]}
+        "numpy": ["content", "content_last", "content_mid", "shape", "dtype", "none"]}
 FILE_TASKS = ["PyFileAny", "PyFileCopy", "ShFileAny", "ShFileCopy"]
 
 
@@ -289,7 +294,10 @@ def gen_cases(rng, n, n_cf):
         else:
             case.update(how=how, value=[rng.randint(1, 50) for _ in range(rng.randint(2, 4))])
             if kind == "numpy":
-                case.update(shape=rng.choice([[2, 3], [3, 2], [1, 4], [2, 2]]), dtype=rng.choice(["float64", "int64"]))
+                # small arrays and arrays of several tens of KB (whose data may be hashed in pieces)
+                big = how in ("content_last", "content_mid") or rng.random() < 0.2
+                case.update(shape=rng.choice([[60, 100], [3000, 3], [1, 5000]] if big else [[2, 3], [3, 2], [1, 4], [2, 2]]),
+                            dtype=rng.choice(["float64", "int64"]))
         cases.append(case)
     return cases
 
